@@ -224,6 +224,65 @@ def nontrivial_key(kind, payload):
     return hash(json.dumps([kind, payload], sort_keys=True, default=str))
 
 
+def _oracle_partition_problem(payload, real, used):
+    """is a refusal legitimate, and does an accepted request keep every used qubit and recombine its observables?"""
+    nq, instrs, labs, obs = payload["nq"], payload["instrs"], payload["labels"], payload["obs"]
+    nonbar = [i for i in instrs if i["name"] != "barrier"]
+    if labs is None:
+        # automatic labels: connectivity of the non-placeholder instructions; exactly the untouched qubits are dropped
+        parent = list(range(nq))
+
+        def find(x):
+            while parent[x] != x:
+                x = parent[x]
+            return x
+        for i in instrs:
+            if i["name"] == "qpd_2q":
+                continue
+            for q in i["qubits"][1:]:
+                a, b = find(i["qubits"][0]), find(q)
+                if a != b:
+                    parent[a] = b
+        eff = [find(q) if q in used else None for q in range(nq)]
+    else:
+        eff = list(labs)
+    legit = False
+    for i in nonbar:
+        ls = {eff[q] for q in i["qubits"]}
+        if None in ls:
+            legit = True  # an instruction on a None-labelled qubit
+        if len(ls) > 1 and (len(i["qubits"]) > 2 or i["name"] in _unsupported(payload)):
+            legit = True  # a spanning gate that cannot be cut
+    if obs:
+        if any(o["l"][q] != "I" for o in obs for q in range(nq) if eff[q] is None):
+            legit = True  # an observable acts on a discarded qubit: refusing is the only correct answer
+            if "error" not in real:
+                return "an observable acts on a qubit that partitioning discards, yet a result was returned (the value would change silently)"
+    if "error" in real:
+        if real["error"] != "ValueError":
+            return f"raised {real['error']}"
+        return None if legit else "a valid partitioning request was refused"
+    res = real["ok"]
+    keys = [l for l, _ in res["subcircuits"]]
+    if res["subobs"] is not None:
+        if sorted(map(repr, [l for l, _ in res["subobs"]])) != sorted(map(repr, keys)):
+            return f"sub-observable keys {[l for l, _ in res['subobs']]} differ from subcircuit keys {keys}"
+    if labs is not None and res["subobs"] is not None and obs:
+        so = {repr(l): v for l, v in res["subobs"]}
+        for k, o in enumerate(obs):
+            rebuilt = ["I"] * nq
+            for l in set(x for x in labs if x is not None):
+                qs = [q for q in range(nq) if labs[q] == l]
+                sub = so[repr(l)][k]["l"]
+                if len(sub) != len(qs) or so[repr(l)][k]["p"] != 0:
+                    return f"restriction of observable {k} to partition {l} has the wrong width or a phase"
+                for j, q in enumerate(qs):
+                    rebuilt[q] = sub[j]
+            if "".join(rebuilt) != o["l"]:
+                return f"restrictions of {o['l']} recombine to {''.join(rebuilt)}"
+    return None
+
+
 def oracle(kind, payload):
     """Structural re-check of the property's clauses on the real result (independent of the Lean model)."""
     real = call_real(lambda p: run_real(kind, p), payload)
@@ -243,6 +302,10 @@ def oracle(kind, payload):
         if payload["obs"] is not None and any(len(o["l"]) != nq or o["p"] != 0 for o in payload["obs"]):
             return None if real.get("error") == "ValueError" else "bad observable not refused"
     used = set(q for i in instrs for q in i["qubits"])
+    if kind == "partition_problem":
+        why = _oracle_partition_problem(payload, real, used)
+        if why is not None or "error" in real or labs is None:
+            return why
     if "error" in real:
         if real["error"] != "ValueError":
             return f"raised {real['error']}"
